@@ -64,6 +64,9 @@ template <int DIM, int ORDER> struct Cfg {
       for (; it != pp.end(); ++it, ++i) {
         auto s1 = pp[i]; auto s2 = pp.at(i); auto s3 = *it; auto it2 = pp.begin() + i;
         bool ok = s1.index() == i && s2.index() == i && s3.index() == i && it->index() == i && (*it2).index() == i && (it2 - pp.begin()) == i;
+        // iterator arithmetic from a NON-begin position, and distances between arbitrary iterators
+        for (int a = 0; a <= i; ++a) { auto it3 = (pp.begin() + a) + (i - a); ok = ok && (*it3).index() == i && it3->startTime() == b[i] && (it3 - (pp.begin() + a)) == (i - a) && it3 == it2 && !(it3 != it2); if (a > 3 && a < i - 3) a = i - 3; }
+        ok = ok && (pp.end() - it2) == (n - i) && ((it + 0) == it);
         ok = ok && s1.startTime() == b[i] && s1.endTime() == b[i + 1] && s1.duration() == b[i + 1] - b[i] && it->startTime() == b[i];
         Mat blk = s1.getCoeffs(); ok = ok && blk.rows() == nc; if (ok) for (int k = 0; k < nc; ++k) for (int d = 0; d < DIM; ++d) ok = ok && blk(k, d) == C(i * nc + k, d);
         ++c.st.comparisons;
